@@ -793,9 +793,15 @@ class Model(Object):
                 obj_coef = reaction.objective_coefficient
                 if obj_coef != 0:
                     if context:
+                        # look the objective up when undoing: it may have been
+                        # replaced in the meantime
                         context(
                             partial(
-                                self.solver.objective.set_linear_coefficients,
+                                lambda coefficients: (
+                                    self.solver.objective.set_linear_coefficients(
+                                        coefficients
+                                    )
+                                ),
                                 {forward: obj_coef, reverse: -obj_coef},
                             )
                         )
